@@ -719,3 +719,220 @@ Proof.
       * symmetry. apply Nat.eqb_neq. rewrite Hw. unfold ol. cbn [app]. rewrite intercalate_cons, app_length.
         inversion Hne as [|? ? Hx _]; subst. destruct x; [congruence|cbn [length]; lia].
 Qed.
+
+(* ---- empty components are invisible to [norm] ---------------------------- *)
+Definition ne (e : str) : bool := negb (match e with [] => true | _ => false end).
+
+Lemma norm_filter r : forall cs st, norm r st (filter ne cs) = norm r st cs.
+Proof.
+  induction cs as [|c cs IH]; intros st; [reflexivity|].
+  destruct c as [|x c']; [cbn [filter ne negb]; rewrite norm_empty; apply IH|].
+  cbn [filter ne negb]. cbn [norm orb].
+  destruct (is_dot (x :: c')); [apply IH|].
+  destruct (is_dotdot (x :: c')); [|apply IH].
+  destruct st as [|top st]; [destruct r; apply IH|]. destruct (is_dotdot top); apply IH.
+Qed.
+
+Lemma comps_word c : sepfree c -> comps c = [c].
+Proof.
+  intros Hc. rewrite comps_tw.
+  destruct (@tw_dw_app sepL c [] Hc I) as [H1 H2]. rewrite app_nil_r in H1, H2.
+  rewrite H1, H2. reflexivity.
+Qed.
+
+Lemma comps_intercalate l : l <> [] -> Forall sepfree l -> comps (intercalate [SLASH] l) = l.
+Proof.
+  induction l as [|x l IH]; [congruence|]. intros _ Hl. inversion Hl as [|? ? Hx Hl']; subst.
+  destruct l as [|y l]; [apply comps_word; exact Hx|].
+  rewrite intercalate_cons. cbn [app]. rewrite comps_app_sep, comps_word by exact Hx.
+  rewrite IH by (auto; discriminate). reflexivity.
+Qed.
+
+(* the non-empty components of the elements of a Join *)
+Definition fc (l : list str) : list str := flat_map (fun e => filter ne (comps e)) l.
+
+Lemma filter_comps_intercalate l : filter ne (comps (intercalate [SLASH] l)) = fc l.
+Proof.
+  induction l as [|x l IH]; [reflexivity|]. destruct l as [|y l].
+  - cbn [intercalate fc flat_map]. rewrite app_nil_r. reflexivity.
+  - rewrite intercalate_cons. cbn [app]. rewrite comps_app_sep, filter_app, IH. reflexivity.
+Qed.
+
+Lemma fc_filter l : fc (filter ne l) = fc l.
+Proof.
+  induction l as [|x l IH]; [reflexivity|]. destruct x as [|a x]; cbn [filter ne negb].
+  - exact IH.
+  - unfold fc in *. cbn [flat_map]. rewrite IH. reflexivity.
+Qed.
+
+Lemma norm_comps_intercalate r st l : norm r st (comps (intercalate [SLASH] l)) = norm r st (fc l).
+Proof. rewrite <- norm_filter, filter_comps_intercalate. reflexivity. Qed.
+
+(* ---- [norm] is the identity on its own results --------------------------- *)
+Lemma norm_goods r k : forall cs nm, Forall good cs -> norm r (stk k nm) cs = L k nm ++ cs.
+Proof.
+  induction cs as [|c cs IH]; intros nm Hg.
+  - cbn [norm]. rewrite rev_stk, app_nil_r. reflexivity.
+  - inversion Hg as [|? ? (H1 & H2 & H3 & H4) Hg']; subst. rewrite norm_push by assumption.
+    change (c :: stk k nm) with (stk k (c :: nm)). rewrite IH by exact Hg'.
+    rewrite L_cons, <- app_assoc. reflexivity.
+Qed.
+
+Lemma norm_dds cs : forall k j, norm false (stk j []) (repeat DD k ++ cs) = norm false (stk (j + k) []) cs.
+Proof.
+  induction k as [|k IH]; intros j; cbn [repeat app].
+  - rewrite Nat.add_0_r. reflexivity.
+  - rewrite norm_dd_push, IH. f_equal. f_equal. lia.
+Qed.
+
+Lemma norm_fix rooted k names :
+  Forall good names -> (rooted = true -> k = 0) -> norm rooted [] (L k names) = L k names.
+Proof.
+  intros Hg Hk. change (@nil str) with (stk 0 []) at 1. unfold L at 1. destruct rooted.
+  - rewrite (Hk eq_refl). cbn [repeat app]. rewrite norm_goods by (apply Forall_rev; exact Hg). reflexivity.
+  - rewrite norm_dds. cbn [plus]. rewrite norm_goods by (apply Forall_rev; exact Hg).
+    unfold L. cbn [rev]. rewrite app_nil_r. reflexivity.
+Qed.
+
+Lemma L_sepfree k names : Forall good names -> Forall sepfree (L k names).
+Proof.
+  intros Hg. unfold L. apply Forall_app. split.
+  - apply Forall_repeat. intros x [<-|[<-|[]]]; reflexivity.
+  - apply Forall_rev. eapply Forall_impl; [|exact Hg]. intros c (_ & H & _). exact H.
+Qed.
+
+Lemma intercalate_head l :
+  l <> [] -> Forall (fun c : str => c <> []) l -> Forall sepfree l ->
+  exists a s, intercalate [SLASH] l = a :: s /\ sepL a = false.
+Proof.
+  destruct l as [|x l]; [congruence|]. intros _ Hne Hsf.
+  inversion Hne as [|? ? Hx _]; inversion Hsf as [|? ? Hxs _]; subst.
+  destruct x as [|a x]; [congruence|]. rewrite intercalate_cons. cbn [app].
+  eexists _, _. split; [reflexivity|]. apply Hxs. left. reflexivity.
+Qed.
+
+Theorem clean_spec_idempotent p : clean_spec (clean_spec p) = clean_spec p.
+Proof.
+  destruct p as [|c0 p']; [reflexivity|]. unfold clean_spec at 2 3.
+  change (N.eqb c0 SLASH) with (sepL c0).
+  destruct (norm_shape0 (sepL c0) (c0 :: p')) as (k & names & Hn & Hg & Hk). rewrite Hn.
+  pose proof (L_sepfree k Hg) as Hsf. pose proof (L_ne k Hg) as Hne.
+  destruct (sepL c0) eqn:Hr; unfold render.
+  - unfold clean_spec. cbn [N.eqb Pos.eqb SLASH]. rewrite comps_sep, norm_empty.
+    destruct (L k names) eqn:EL; [reflexivity|].
+    rewrite comps_intercalate by (auto; discriminate). rewrite <- EL.
+    rewrite norm_fix by assumption. reflexivity.
+  - destruct (L k names) eqn:EL; [reflexivity|]. rewrite <- EL in *.
+    destruct (@intercalate_head (L k names)) as (a & s' & Hi & Ha); auto; [rewrite EL; discriminate|].
+    unfold clean_spec. rewrite Hi. change (N.eqb a SLASH) with (sepL a). rewrite Ha, <- Hi.
+    rewrite comps_intercalate by (auto; rewrite EL; discriminate).
+    rewrite norm_fix by (auto; discriminate). rewrite EL. reflexivity.
+Qed.
+
+Theorem clean_idempotent p : clean Linux (clean Linux p) = clean Linux p.
+Proof. rewrite !clean_spec_correct. apply clean_spec_idempotent. Qed.
+
+(* ---- shape of a cleaned absolute path ------------------------------------ *)
+(* a proper name: non-empty, no separator, neither "." nor ".." *)
+Definition good_comp (c : str) : Prop :=
+  c <> [] /\ (forall x, In x c -> x <> SLASH) /\ c <> [DOT] /\ c <> [DOT; DOT].
+
+Lemma good_good_comp c : good c <-> good_comp c.
+Proof.
+  unfold good, good_comp, sepfree, is_dot, is_dotdot. split; intros (H1 & H2 & H3 & H4); repeat split; auto.
+  - intros x Hx E. apply H2 in Hx. rewrite sepL_eq in Hx. apply N.eqb_neq in Hx. auto.
+  - apply str_eqb_neq. exact H3.
+  - apply str_eqb_neq. exact H4.
+  - intros x Hx. rewrite sepL_eq. apply N.eqb_neq. apply H2. exact Hx.
+  - apply str_eqb_neq. exact H3.
+  - apply str_eqb_neq. exact H4.
+Qed.
+
+Theorem clean_spec_rooted r :
+  exists cs, clean_spec (SLASH :: r) = SLASH :: intercalate [SLASH] cs /\ Forall good_comp cs
+             /\ cs = norm true [] (comps r).
+Proof.
+  unfold clean_spec. cbn [N.eqb Pos.eqb SLASH]. rewrite comps_sep, norm_empty.
+  destruct (norm_shape0 true r) as (k & names & Hn & Hg & Hk).
+  exists (norm true [] (comps r)). split; [reflexivity|]. split; [|reflexivity].
+  rewrite Hn, (Hk eq_refl). unfold L. cbn [repeat app]. apply Forall_rev.
+  eapply Forall_impl; [|exact Hg]. intros c. apply good_good_comp.
+Qed.
+
+Theorem clean_rooted p :
+  is_abs Linux p = true ->
+  exists cs, clean Linux p = SLASH :: intercalate [SLASH] cs /\ Forall good_comp cs.
+Proof.
+  intros Ha. apply is_abs_linux in Ha as (r & ->). rewrite clean_spec_correct.
+  destruct (clean_spec_rooted r) as (cs & H1 & H2 & _). eauto.
+Qed.
+
+(* no ".." (and no ".") component survives in a cleaned absolute path *)
+Theorem clean_no_dotdot_rooted p c :
+  is_abs Linux p = true -> In c (comps (clean Linux p)) -> c <> [DOT; DOT] /\ c <> [DOT].
+Proof.
+  intros Ha Hin. destruct (clean_rooted p Ha) as (cs & Hc & Hg). rewrite Hc, comps_sep in Hin.
+  destruct Hin as [<-|Hin]; [split; discriminate|].
+  destruct cs as [|x cs]; [destruct Hin as [<-|[]]; split; discriminate|].
+  rewrite comps_intercalate in Hin.
+  - rewrite Forall_forall in Hg. destruct (Hg c Hin) as (_ & _ & H3 & H4). auto.
+  - discriminate.
+  - eapply Forall_impl; [|exact Hg]. intros a Hga. apply good_good_comp in Hga as (_ & H & _). exact H.
+Qed.
+
+(* ---- Join and Abs --------------------------------------------------------- *)
+Lemma drop_empty_prefix_filter elems :
+  match drop_empty_prefix elems with
+  | [] => filter ne elems = []
+  | x :: l => x <> [] /\ filter ne elems = x :: filter ne l
+  end.
+Proof.
+  induction elems as [|e elems IH]; [reflexivity|]. destruct e as [|a e]; cbn [drop_empty_prefix filter ne negb].
+  - exact IH.
+  - split; [discriminate|reflexivity].
+Qed.
+
+Lemma clean_spec_intercalate (x : str) (l : list str) :
+  x <> [] ->
+  clean_spec (intercalate [SLASH] (x :: l))
+  = render (is_abs_spec x) (norm (is_abs_spec x) [] (fc (x :: l))).
+Proof.
+  intros Hx. destruct x as [|a x]; [congruence|]. rewrite <- norm_comps_intercalate.
+  pose proof (intercalate_cons [SLASH] (a :: x) l) as Hs. cbn [app] in Hs. rewrite Hs. reflexivity.
+Qed.
+
+(* Join on components: the non-empty components of all elements, normalised;
+   rooted iff the first non-empty element is *)
+Lemma join_spec_ne elems :
+  join_spec elems = match filter ne elems with [] => [] | l => clean_spec (intercalate [SLASH] l) end.
+Proof. reflexivity. Qed.
+
+Lemma join_spec_comps (elems : list str) (x : str) (l : list str) :
+  filter ne elems = x :: l ->
+  join_spec elems = render (is_abs_spec x) (norm (is_abs_spec x) [] (fc elems)).
+Proof.
+  intros H. rewrite join_spec_ne, H. cbv beta iota. assert (Hx : x <> []).
+  { assert (Hin : In x (filter ne elems)) by (rewrite H; left; reflexivity).
+    apply filter_In in Hin as [_ Hin]. destruct x; [discriminate|discriminate]. }
+  rewrite clean_spec_intercalate by exact Hx. rewrite <- H, fc_filter. reflexivity.
+Qed.
+
+Theorem join_spec_correct elems : join Linux elems = join_spec elems.
+Proof.
+  unfold join. pose proof (drop_empty_prefix_filter elems) as H.
+  destruct (drop_empty_prefix elems) as [|x l].
+  - rewrite join_spec_ne, H. reflexivity.
+  - destruct H as (Hx & H). rewrite (join_spec_comps elems H).
+    change (sepc Linux) with SLASH. rewrite clean_spec_correct, clean_spec_intercalate by exact Hx.
+    assert (Hfc : fc (x :: l) = fc elems).
+    { rewrite <- (fc_filter elems), H, <- (fc_filter (x :: l)). destruct x; [congruence|reflexivity]. }
+    rewrite Hfc. reflexivity.
+Qed.
+
+Lemma is_abs_spec_eq p : is_abs Linux p = is_abs_spec p.
+Proof. reflexivity. Qed.
+
+Theorem abs_spec_correct cur p : abs Linux cur p = abs_spec cur p.
+Proof.
+  unfold abs, abs_spec. rewrite is_abs_spec_eq, clean_spec_correct, join_spec_correct. reflexivity.
+Qed.
